@@ -300,7 +300,11 @@ func c19Judge(c *fw.Ctx, es []c19Entry, family string) {
 }
 
 var c19Book = []string{"_rels/.rels", "docProps/app.xml", "docProps/core.xml", "docProps/", "docProps/thumbnail.jpeg", "customXml/item1.xml", "customXml/", "[trash]/0000.dat", "_rels/"}
-var c19Near = []string{"res/", "res/icons/app.png", "res/drawabl", "res/messages.properties", "classes.de", "resources.ars", "AndroidManifest.xm", "words/a.xml", "Word/document.xml", "xl.xml", "pptx/x", "x", "xl", "wor", "word", "pp", "ppt", "M", "META-INF/", "META-INF/MANIFEST.M", "XL/workbook.xml", "w/ord/", "x/l/", "mimetype2", "Mimetype"}
+var c19Near = []string{"res/", "res/icons/app.png", "res/drawabl", "res/messages.properties", "classes.de", "resources.ars", "AndroidManifest.xm", "words/a.xml", "Word/document.xml", "xl.xml", "pptx/x", "x", "xl", "wor", "word", "pp", "ppt", "M", "META-INF/", "META-INF/MANIFEST.M", "XL/workbook.xml", "w/ord/", "x/l/", "mimetype2", "Mimetype",
+	// the markers in another letter case are not markers
+	"meta-inf/manifest.mf", "META-INF/manifest.mf", "Meta-Inf/Manifest.mf", "META-INF/MANIFEST.mf", "androidmanifest.xml", "ANDROIDMANIFEST.XML", "AndroidManifest.XML", "androidManifest.xml",
+	"CLASSES.DEX", "Classes.dex", "RESOURCES.ARSC", "Resources.arsc", "RES/DRAWABLE/icon.png", "Res/drawable/x.png", "res/Drawable/x.png", "WORD/document.xml", "PPT/slides/slide1.xml", "Ppt/x", "Xl/x", "MIMETYPE",
+	"meta-inf/com/android/build/gradle/app-metadata.properties", "[content_types].xml", "[CONTENT_TYPES].XML"}
 
 func c19Body(r *rand.Rand, aliasing bool, name string) []byte {
 	if aliasing {
@@ -499,6 +503,12 @@ func c19Run(c *fw.Ctx, b fw.Batch) {
 				add(c19Unrelated(r))
 			}
 		default: // unrelated names and near misses only
+			if r.Intn(4) == 0 { // a wrongly cased marker early in an otherwise unrelated archive
+				for k := r.Intn(3); k > 0; k-- {
+					add(c19Unrelated(r))
+				}
+				add(c19Near[len(c19Near)-23+r.Intn(23)])
+			}
 			for k := 1 + r.Intn(9); k > 0; k-- {
 				if r.Intn(3) == 0 {
 					add(c19Near[r.Intn(len(c19Near))])
@@ -515,7 +525,7 @@ func init() {
 	fw.Register(&fw.Prop{
 		ID:    "C19",
 		Level: "exploration",
-		Rule: "archives are written with archive/zip from generated entry lists: OOXML-like packages ([Content_Types].xml first, bookkeeping parts _rels / docProps / customXml / [trash] in any combination incl. directory entries, one marker part word/ xl/ ppt/ at positions 2-10, sometimes further markers, near-miss names words/ Word/ xl.xml pptx/ and proper prefixes x xl wor word pp M, unrelated names of 1-60 characters), JARs, APK-like, ODF/EPUB with a stored 'mimetype' first entry (exact and near-miss contents), unrelated-only archives; every entry is written in one of 6 ways (Create = deflate + data descriptor; store + descriptor; CreateRaw store with sizes; CreateRaw deflate with sizes; deflate + descriptor + extended-timestamp extra field; directory entry); bodies empty / one byte / XML-like / random / large; an 'aliasing' family puts the remainder of a marker at the start of a body that follows a proper-prefix name. A few packages carry a part of more than 1 MiB in front of the marker, and pairs of equal-length archives are detected one after the other in the same buffer. Archives whose bytes contain PK\\x03\\x04 other than at entry headers are dropped. The entry list is read back with zip.Reader and decides P1 P2 P3 N1 N2 and the application/zip parent; limit 0. " +
+		Rule: "archives are written with archive/zip from generated entry lists: OOXML-like packages ([Content_Types].xml first, bookkeeping parts _rels / docProps / customXml / [trash] in any combination incl. directory entries, one marker part word/ xl/ ppt/ at positions 2-10, sometimes further markers, near-miss names words/ Word/ xl.xml pptx/, every marker in other letter cases (meta-inf/manifest.mf, androidmanifest.xml, CLASSES.DEX, WORD/ …) and proper prefixes x xl wor word pp M, unrelated names of 1-60 characters), JARs, APK-like, ODF/EPUB with a stored 'mimetype' first entry (exact and near-miss contents), unrelated-only archives; every entry is written in one of 6 ways (Create = deflate + data descriptor; store + descriptor; CreateRaw store with sizes; CreateRaw deflate with sizes; deflate + descriptor + extended-timestamp extra field; directory entry); bodies empty / one byte / XML-like / random / large; an 'aliasing' family puts the remainder of a marker at the start of a body that follows a proper-prefix name. A few packages carry a part of more than 1 MiB in front of the marker, and pairs of equal-length archives are detected one after the other in the same buffer. Archives whose bytes contain PK\\x03\\x04 other than at entry headers are dropped. The entry list is read back with zip.Reader and decides P1 P2 P3 N1 N2 and the application/zip parent; limit 0. " +
 			"non-trivial = an archive with a claim (P1/P2/P3/N2) and more than one entry; distinct = distinct (family, claim, verdict, set of writer modes used, position of the first marker, entry count).",
 		Assumptions: []string{
 			"archive/zip is the standard writer and reader",
